@@ -15,6 +15,7 @@ import random
 from tools import vlib
 from tools.vlib import Outcome, sx
 from tools.props import c05_types as T
+from tools.props import c05_proj
 
 MANIFEST = {
     "level_text": "Coq theorems (Properties/C05.v, no axioms) over a faithful Gallina transcription of parse_type_structure (with the depth-aware find_top_level_comma / split_top_level), the default/TypeScript/Zod visitors, the Zod schema builder and add_types_prefix, for every type of the documented language (unbounded nesting): C05_parse_faithful (string -> TypeStructure round trip, no class premise); C05_sound_ts_sites - at every site whose text is a TypeScript type (parameter, field, channel in plain mode; channel, return, event payload in both modes: 8 of the 10 site x mode pairs) and outside the recorded classes the printed text, read by an independent TypeScript type parser with real precedences, is exactly the README-table shape of the Rust type, namespace-qualified at return/event sites (C05_sound_plain, C05_sound_prefix, C05_prefix_is_qualified_render: add_types_prefix on the visitor's text is the qualified rendering); C05_compositional_*; C05_oracle_exact (the boolean run-time oracle is equivalent to the Prop statement); C05_zod_tree_denotes, C05_sound_zod_schema and C05_sound_full_bounded (the full statement at all ten site x mode pairs, Zod parameter/field schemas included, for types nested less than 31 levels whose structure lies in the domain of the C10 round-trip theorem; see level_note); a computed refutation for each of the five remaining classes and a computed positive statement on the witnesses of the three repaired ones. The model is tied to /repo on every run: every constructor spine to depth 2 (quick) / 3 (thorough), all 14 numeric widths, random types to depth 6 and a malformed-string stream are pushed through the real parsers, visitors, schema builder and the real partial templates, compared string for string with the extracted model at all five sites in both modes, and the extracted specification is applied to the implementation's text.",
@@ -343,6 +344,10 @@ def run(rep):
     rep.extra["non_ascii_named_types"] = stats.get("non_ascii_named", 0)
     rep.add("raw", evaluate_raw(raw_cases(rng, 20000 if thorough else 3000)))
     rep.add("printers", evaluate_printers(x_cases()))
+    # project level, real CLI binary: the event payload site as the tool reaches it, module-qualified spellings
+    vlib.build_repo_bin()
+    rep.add("payload-expression", c05_proj.evaluate_exprs())
+    rep.add("module-path", c05_proj.evaluate_paths(rep.tier))
     if thorough:
         # the depth-2 sweep of the model inside Coq (same enumeration as the quick tier's spines stream)
         rc, out = vlib.coq_make(["Proofs/C05Sweep2.vo"], timeout=2700)
@@ -364,6 +369,15 @@ def replay(rep, payload):
         c = it["case"]
         if "raw" in c:
             rep.add("raw", evaluate_raw([{"id": 0, "ty": c["raw"]}]))
+            continue
+        if c.get("what") == "payload-expression":
+            vlib.build_repo_bin()
+            rep.add("payload-expression", [o for o in c05_proj.evaluate_exprs((c["mode"],)) if o.case["tag"] == c["tag"]])
+            continue
+        if c.get("what") == "module-path":
+            vlib.build_repo_bin()
+            rep.add("module-path", [o for o in c05_proj.evaluate_paths("thorough")
+                                    if all(o.case[k] == c[k] for k in ("prefix", "site", "binding", "mode"))])
             continue
         if "printers" in c:
             rep.add("printers", evaluate_printers([t for t in x_cases() if x_src(t) == c["printers"]]))
